@@ -22,6 +22,6 @@ fp("dask/bag/chunk.py", "groupby_tasks_group_hash", "foldby_combine2", "var_chun
 # review round: newly modelled / newly tied functions
 fp("dask/bag/core.py", "Bag.mean", "Bag.var", "Bag.std", "Bag.repartition", "repartition_size", "total_mem_usage",
    "Bag.to_delayed", "from_delayed", "Bag.to_dataframe", "to_dataframe", "Item.from_delayed", "Item.to_delayed",
-   "lazify_task", "_count_references", "_alias_target", "lazify", "optimize")
+   "lazify_task", "_count_references", "_alias_target", "lazify", "optimize", "_partition_as_data")
 fp("dask/utils.py", "iter_chunks")
 fp("dask/utils.py", "digit", "insert")
